@@ -22,6 +22,7 @@ def run(ctx):
     ident_shapes += [vlib.norm_sh(('T', False, (x, y))) for x in l1[::9] for y in l1[::11]]
     ident_shapes += [vlib.norm_sh(('U', True, (x, y))) for x in l1[::9] for y in l1[::13]]
     odd_shapes = [vlib.rand_shape(ctx.rng, 3, IDENT + ODD) for _ in range(n // 2)]
+    odd_shapes += [vlib.parse_sh(t) for t in vlib.scale_shapes()]          # wide / deep / long-key / odd-key shapes
     uniq = {}
     for s in ident_shapes + odd_shapes:
         uniq.setdefault(sh_str(s), s)
